@@ -8,6 +8,7 @@ CHECKS = {
  "C01": ("exploration", "every CNF of the families T2/S3/S4/L6/M x entry point x learned-clause limit x heuristic choice list (deviation bounded): verdict, model length and model validity against a truth table; termination by step budget", "§4 C01", EXPL),
  "C02": ("exploration", "every set (size 1-2, plus unit constraints) of cardinality / PB constructor calls over 2-3 variables with weights in [-2..2] and every degree, and decreasing-coefficient constraints under every partial unit assignment, x heuristic choice list: verdict and model against integer arithmetic on the constraints as written", "§4 C02", EXPL),
  "C03": ("exploration", "(constraint set, cost function, entry point) triples: small CNF, cardinality and PB sets x every cost function over <=3-4 distinct variables (either polarity, weights nil / {0..2} / negative through OPB, or none) x {Optimal(nil), Optimal(chan), Minimize} x heuristic choice list (<=1 deviation over the whole optimisation loop): verdict, model validity, reported cost = cost(model) = truth-table minimum, result stream strictly decreasing and ending with the returned result", "§4 C03", EXPL),
+ "C04": ("exploration", "(a) every constraint-API instance of <=2 constraints (clause, cardinality with implicit coefficients, PB) and 3 from a reduced alphabet over 3 named variables, hard or soft with weights 1..3, x every permutation of the cost-function order (map-iteration order owned through the verif hook); (b) every WCNF text with <=3 short clauses, all hard/soft splits, weights 1..3, top weights, declared n or n+1, Optimal with/without channel: unsatisfiable iff hard part is; model covers exactly the user's variables; cost = violated soft weight = truth-table minimum", "§4 C04", EXPL),
  "C05": ("exploration", "problems (CNF families incl. declared-but-unused variables and the empty problem, cardinality/PB sets) x {CountModels, Enumerate with/without channel, each also after a Solve} x heuristic choice list (<=1 deviation): count and delivered model multiset against the truth-table model set, channel closed", "§4 C05", EXPL),
  "C07": ("exploration", "CNF problems (dirty T2, all S3 multisets of <=4 clauses, unions of two minimal cores in several orders, conflict-rich seeds) x {MUS, MUSDeletion, MUSInsertion, MUSMaxSat} x heuristic choice list (<=1 deviation over all solver calls of an extraction): error iff satisfiable; result is a sub-multiset, unsatisfiable and minimal by truth table; caller's problem deep-equal afterwards", "§4 C07", EXPL),
  "C08": ("exploration", "(problem, certificate, entry point): every sequence of <=2 certificate lines over the clause alphabet (empty clause, comments, blanks, repeated literals) on T2/S3 problems, genuine solver traces verbatim and with one literal dropped/flipped at every position, Unsat(reader) and UnsatChan; UnsatSubset on the C07 inputs: valid => every line implied (truth table); all lines RUP (independent checker) => accepted; problem restored, second check equal; subset is an unsatisfiable sub-multiset / ErrNotUnsat", "§4 C08", EXPL),
